@@ -452,6 +452,14 @@ def check_names(ctx, rep):
                       f"whichever column came first are used for all of them")
     check_child_symmetry(ctx, rep)
     check_labels_are_names(ctx, rep)
+    # the order of the columns / of the index blocks does not matter only if every distinct column is kept with its full count (C01.W), and where the root is written does
+    # not matter only if the per-node branch vector is the tree model's lengths followed by the one zero of the collapsed root branch (C01.B)
+    from sa.report import RuleProxy as _RP
+    for f_, pre in ((c01.check_compress, 'compress::'), (c01.check_assembly, 'assembly::')):
+        try:
+            f_(ctx, _RP(rep, 'C02.N', pre))
+        except Unsupported as u:
+            rep.undecided('C02.N', pre + f_.__name__, '', str(u))
     # (f) nothing computed from a method argument is memoised on the shared SitePattern without that argument in the key
     from props import c11
     from sa.report import RuleProxy
